@@ -83,7 +83,11 @@ def rounding_clauses(st0, st1, m, ot):
             ("C19 buy limit price rounds down by less than one tick", z3.Implies(z3.And(z3.Not(p0n), buy), z3.And(p1 <= p0, p0 - p1 < tick))),
             ("C19 sell limit price rounds up by less than one tick", z3.Implies(z3.And(z3.Not(p0n), z3.Not(buy)), z3.And(p1 >= p0, p1 - p0 < tick))),
             ("C19 accepted price is on the tick grid", z3.Implies(z3.Not(p0n), z3.Exists([k], p1 == z3.ToReal(k) * tick))),
-            ("C19 a price on the grid is accepted unchanged", z3.ForAll([k], z3.Implies(z3.And(z3.Not(p0n), p0 == z3.ToReal(k) * tick), p1 == p0)))]
+            # k_grid0 is a free constant: the clause is proved for an arbitrary grid index (same as quantifying over it)
+            ("C19 a price on the grid is accepted unchanged", z3.Implies(z3.And(z3.Not(p0n), p0 == z3.ToReal(K_GRID) * tick), p1 == p0))]
+
+
+K_GRID = z3.Int("k_grid0")
 
 
 def ao_post(st0, st1, a, res):
@@ -141,7 +145,15 @@ def ao_trace(st0, st1, a, res):
     return [event("Write", res, V(("ref", "Logger"), lg.term), guard=z3.Not(lg.none))]
 
 
-ADD_ORDER = FSpec("Market._add_order", axioms=lambda st, a: market_axioms(st, a["self"]), pre=ao_pre, post=ao_post, modifies=ao_modifies,
+def grid_division_lemma(st, a):
+    """instance of the lemma `t > 0 and k*t == p  =>  p/t == k` (proved as obligation `lemma:grid-division` of this task) for the order's
+    price and the market's tick size: the solver does not find this nonlinear cancellation by itself within a load-independent budget"""
+    ot = a["order"].term
+    p = O(st, "price")[ot]; t = st.read(a["self"], "tick_size").term
+    return [z3.Implies(z3.And(t > 0, z3.ToReal(K_GRID) * t == p), RDIV(p, t) == z3.ToReal(K_GRID))]
+
+
+ADD_ORDER = FSpec("Market._add_order", axioms=lambda st, a: market_axioms(st, a["self"]) + grid_division_lemma(st, a), pre=ao_pre, post=ao_post, modifies=ao_modifies,
                   raises={"ValueError": ao_raises}, trace=ao_trace, fresh_result=True, props=("C19", "C04", "C08", "C10"))
 
 
@@ -156,6 +168,8 @@ def market_callee_specs():
       "Market.convert_to_tick_level_rounded_lower", "Market.convert_to_tick_level_rounded_upper", "OrderLog.__init__"], replay="market_ops", heavy=True)
 def t_add_order():
     obl, info = ADD_ORDER.verify(specs=market_callee_specs(), setup=B.setup_book)
+    p, t, q = z3.Reals("p_gdl t_gdl q_gdl"); k = z3.Int("k_gdl0")
+    obl.append({"name": "Market._add_order/lemma:grid-division t > 0, q*t == p, k*t == p => q == k", "pc": [t > 0, q * t == p, z3.ToReal(k) * t == p], "goal": q == z3.ToReal(k), "kind": "lemma"})
     return {"obligations": obl, "info": [info]}
 
 
